@@ -227,7 +227,12 @@ func stateListOrArrayT(s *scanner, c byte) int {
 		s.step = stateArrayT
 		return scanListType
 	}
-	return stateInUnquotedString(s, c)
+	if isAllowedInUnquotedString(c) {
+		// not an array prefix, but a longer unquoted string
+		s.step = stateInUnquotedString
+		return scanContinue
+	}
+	return stateEndValue(s, c)
 }
 
 func stateArrayT(s *scanner, c byte) int {
